@@ -11,5 +11,5 @@ CONSTANTS
   MaxWindows = 1
   MaxFLoss = 0
 VIEW FEdgeView
-INVARIANT EmitFQuiet
+INVARIANT EmitFAll
 CHECK_DEADLOCK FALSE
